@@ -1364,7 +1364,7 @@ func main() {
 		return
 	}
 
-	nPure, nLevels, nHist, histOps := 6000, 1200, 40, 45
+	nPure, nLevels, nHist, histOps := 5000, 900, 30, 45
 	if o.Tier == "thorough" {
 		nPure, nLevels, nHist, histOps = 60000, 8000, 300, 70
 	}
